@@ -556,6 +556,10 @@ func checkHTTPReply(body, reply []byte, calls map[string]int) *Violation {
 			if sh.empty {
 				return nil
 			}
+			if e.idKind == idAbsent && x.run != "" {
+				// a well-formed notification whose handler runs: whatever the handler returns, nothing is sent back
+				return violf("notification-answered", "notification to %s (handler ran) got a response: %s", x.run, trunc(string(reply), 200))
+			}
 			if sh.array || !sh.objs[0].idNull {
 				return violf("notification-answered", "notification got a response with an id: %s", trunc(string(reply), 200))
 			}
@@ -576,7 +580,11 @@ func checkHTTPReply(body, reply []byte, calls map[string]int) *Violation {
 		case idInvalid:
 			nInvalid++
 		default:
-			nOptional++
+			// a notification the library rejects (unknown method, wrong arity, ...) is answered with a null-id error
+			// by this library; one whose handler runs is never answered, whatever the handler returns
+			if e.idKind != idAbsent || exps[i].run == "" {
+				nOptional++
+			}
 		}
 	}
 	if sh.empty {
